@@ -281,6 +281,27 @@ def run(prog, ctx):
     ctx.check(ok, "C02.D3", "Grid.Grid::same-enumerator", gp.loc(),
               "points and weights are enumerated by the same tensor-product helper (%s)" % sorted(ep),
               "points are enumerated by %s (global grids: %s) but weights by %s: points and weights are misaligned" % (sorted(ep), sorted(egp), sorted(ew)))
+    # the scalar lookups (used by the point-wise integrator, integrator='old') index the very arrays that the enumerators use:
+    # getCoordinate -> the array getPoints enumerates, getWeight -> the array get_weights enumerates (both without boundary padding)
+    for (lk_name, enum_attr) in (("getCoordinate", "coordinate_array"), ("getWeight", "weights")):
+        lk = g.methods.get(lk_name)
+        if lk is None:
+            raise AnalysisError("anchor vanished: Grid.%s" % lk_name)
+        ctx.touch(lk)
+        idxp = lk.params[1] if len(lk.params) > 1 else None
+        used = set()
+        for x in ast.walk(lk.node):
+            # <self.attr>[d][indexvector[d]]
+            if isinstance(x, ast.Subscript) and isinstance(x.slice, ast.Subscript) and isinstance(x.slice.value, ast.Name) and x.slice.value.id == idxp \
+                    and isinstance(x.value, ast.Subscript):
+                a_ = R.self_attr(x.value.value, lk.self_name)
+                if a_:
+                    used.add(a_)
+        ctx.check(used == {enum_attr}, "C02.D3", R.key_of(lk, "scalar-lookup-same-array"), lk.loc(),
+                  "%s indexes self.%s, the array the tensor enumeration uses" % (lk_name, enum_attr),
+                  "%s looks an index vector up in %s, but the points / weights are enumerated from self.%s: with boundary=False the two "
+                  "numberings differ by the dropped boundary point, points and weights of the point-wise integrator are misaligned"
+                  % (lk_name, sorted(used) or "no per-dimension array", enum_attr))
     # weights reduce over the dimension axis of the enumerated tuples
     tmw = Terms(gw.node)
     okp = False
